@@ -10,12 +10,19 @@ import (
 
 func createLockFile(name string, perm os.FileMode) (LockFile, bool, error) {
 	for {
+		// Whether the lock file existed already is decided by the call that opens it:
+		// the answer of a separate stat can be stale by the time the file is opened.
 		acquiredExisting := false
-		if _, err := os.Stat(name); err == nil {
+		f, err := os.OpenFile(name, os.O_RDWR|os.O_CREATE|os.O_EXCL, perm)
+		if os.IsExist(err) {
 			acquiredExisting = true
+			verifYield("lock.stat")
+			f, err = os.OpenFile(name, os.O_RDWR, perm)
+			if os.IsNotExist(err) {
+				// The owner removed the file in the meantime, start over.
+				continue
+			}
 		}
-		verifYield("lock.stat")
-		f, err := os.OpenFile(name, os.O_RDWR|os.O_CREATE, perm)
 		if err != nil {
 			return nil, false, err
 		}
@@ -35,9 +42,25 @@ func createLockFile(name string, perm os.FileMode) (LockFile, bool, error) {
 			_ = f.Close()
 			return nil, false, err
 		}
-		if current, err := os.Stat(name); err == nil && os.SameFile(locked, current) {
-			return &osLockFile{f, name}, acquiredExisting, nil
+		current, err := os.Stat(name)
+		if err != nil || !os.SameFile(locked, current) {
+			_ = f.Close()
+			continue
 		}
-		_ = f.Close()
+		// Every owner marks the file as used. A marked file means that another process owned the lock
+		// after this one had created the file and didn't release it properly.
+		if locked.Size() > 0 {
+			acquiredExisting = true
+		} else {
+			if _, err := f.WriteAt([]byte{1}, 0); err != nil {
+				_ = f.Close()
+				return nil, false, err
+			}
+			if err := f.Sync(); err != nil {
+				_ = f.Close()
+				return nil, false, err
+			}
+		}
+		return &osLockFile{f, name}, acquiredExisting, nil
 	}
 }
